@@ -7,6 +7,9 @@ import BSModel.Proofs.ReparseGrow
 import BSModel.Gen.Render
 import BSModel.Props.C09
 import BSModel.Proofs.RenderEnt
+import BSModel.Proofs.RenderWritten
+import BSModel.Proofs.RenderWrittenNorm
+import BSModel.Props.C04
 /-! # C05 — serialising and re-parsing gives the same tree back
 
 Property theorems only. `decodeImpl`/`eventStream`/`piece`/`formatTag`/`outputReady`/`substitute` mirror
@@ -674,6 +677,131 @@ example : doctypeString (some (ofS "html")) (some (ofS "-//W3C//DTD HTML 4.01//E
     ofS "html PUBLIC \"-//W3C//DTD HTML 4.01//EN\" \"x.dtd\"" ∧
     doctypeString none none (some (ofS "x.dtd")) = ofS " SYSTEM \"x.dtd\"" ∧ doctypeString (some (ofS "html")) none none = ofS "html" := by
   decide
+
+
+/-! ## 12. the rendered text through the tokenizer MODEL (C04's `parse_of_written_document`)
+
+`reparse_roundtrip` is about `emitR`, the callback stream the tokenizer is *assumed* to produce for the rendered text
+(compared with the real tokenizer per case). On the class `RenderWritable` the assumption is discharged: the rendered
+text is literally a text C04's writer writes, and C04 proves what the code-mirror of CPython's tokenizer
+(`Model/Tokenizer.lean`, tied to the real parser by equality of callback streams) makes of such a text. -/
+
+/-- `RenderWritable`: decidable. `renderWritableL` (Model/RenderWritten.lean: no hidden element; void names written
+    `<br/>`; no `<x/>` for other names; element names not cdata-containing for the formatter; attribute values without
+    `<`, `>` and not "a `"` but no `'`"; no bare PreformattedString) together with C04's `Writable` (names
+    `[a-z][-.:_a-z0-9]*`, no script/style, comments without `>` or without `-`, no `>` in CDATA/doctype/PI) and
+    `Representable` (no element named `[document]`, void elements childless) on the written document `toWDocL f ds`. -/
+abbrev RenderWritable (bcfg : BS.Builder.Cfg) (acfg : BS.Adapter.ACfg) (f : Fmt) (ds : List Node) : Prop :=
+  renderWritableL acfg.isVoid f ds = true ∧
+  BS.WriterText.Writable acfg.isVoid (BS.WriterMin.minimalChoices (toWDocL f ds)) (toWDocL f ds) ∧
+  BS.Writer.Representable bcfg acfg (toWDocL f ds)
+
+/-- **The rendering IS a written document.** For every formatter that substitutes with `substitute_xml`, writes `<x/>`
+    and keeps `""` values ('minimal', both flavours: `minimal_is_minimal`), the class table of the live classes, and
+    every forest in `renderWritableL`: `decode()`'s text equals, character for character, the text C04's writer writes
+    for the document `toWDocL f ds` under the explicit choices `minimalChoices` — every void element `<br/>`; `&`, `<`,
+    `>` as `&amp;`, `&lt;`, `&gt;` and every other character literally; `DOCTYPE`/`CDATA` in upper case; attributes in
+    the renderer's (sorted) order, double-quoted with `&amp;`/`&quot;`. -/
+theorem render_is_written (ci : SCls → ClsInfo) (hci : ∀ c, ci c = assumedMarkup c) (f : Fmt) (hf : IsMinimal f)
+    (iv : PStr → Bool) (ds : List Node) (h : renderWritableL iv f ds = true) :
+    renderL ci f none ds =
+      BS.WriterText.writeText iv (BS.WriterMin.minimalChoices (toWDocL f ds)) (toWDocL f ds) := by
+  rw [BS.WriterMin.writeText_minimal, renderL_eq_wrenderL ci hci f hf iv ds none rfl h]
+
+theorem minimal_is_minimal : IsMinimal minimalHtml ∧ IsMinimal minimalXml := ⟨⟨rfl, rfl, rfl⟩, ⟨rfl, rfl, rfl⟩⟩
+
+/-- **`reparse_roundtrip_tokenized`** — parse(render(t)) through the tokenizer model. For every builder and adapter
+    configuration (`CfgOK`; the three references `&amp; &lt; &gt;` mean `& < >`: `EntOK`), every `str.lower` /
+    `html.unescape` satisfying `ParamsOK`, and every `RenderWritable` forest: the rendered text, tokenized as
+    `feed(text); close()` does (model of CPython's tokenizer), its callbacks handed to `BeautifulSoupHTMLParser` and the
+    construction machine, gives the normal form of the written document, and `Tag.__init__` receives the attributes of
+    the start tags in document order with the positions of their `<` in the rendered text. -/
+theorem reparse_roundtrip_tokenized (bcfg : BS.Builder.Cfg) (acfg : BS.Adapter.ACfg) (hc : BS.Builder.CfgOK bcfg)
+    (P : BS.Tokenizer.Params) (hP : BS.WriterText.ParamsOK P) (he : BS.WriterMin.EntOK acfg)
+    (ci : SCls → ClsInfo) (hci : ∀ c, ci c = assumedMarkup c) (f : Fmt) (hf : IsMinimal f) (ds : List Node)
+    (h : RenderWritable bcfg acfg f ds) :
+    BS.Adapter.adapterBuild bcfg acfg (BS.Tokenizer.callbacks (BS.Tokenizer.run P (renderL ci f none ds))) =
+      (BS.Writer.normalise bcfg (toWDocL f ds),
+       BS.Writer.startInfos acfg (BS.WriterText.withDerivedPos acfg.isVoid (BS.WriterMin.minimalChoices (toWDocL f ds)) (toWDocL f ds))
+         (toWDocL f ds)) := by
+  rw [render_is_written ci hci f hf acfg.isVoid ds h.1]
+  exact BS.Props.C04.parse_of_written_document bcfg acfg hc P hP _ _ h.2.1 h.2.2
+    (BS.WriterMin.wellSpelt_minimal acfg he _)
+
+/-- … and the tokenizer model makes of the rendered text exactly the callbacks of the written document, without error
+    and consuming the whole text (up to the chunking of character data) — the link between the assumed stream and the
+    modelled tokenizer. -/
+theorem rendered_text_callbacks (P : BS.Tokenizer.Params) (hP : BS.WriterText.ParamsOK P) (iv : PStr → Bool)
+    (ci : SCls → ClsInfo) (hci : ∀ c, ci c = assumedMarkup c) (f : Fmt) (hf : IsMinimal f) (ds : List Node)
+    (h : renderWritableL iv f ds = true)
+    (hw : BS.WriterText.Writable iv (BS.WriterMin.minimalChoices (toWDocL f ds)) (toWDocL f ds)) :
+    BS.WriterText.mergeData (BS.Tokenizer.callbacks (BS.Tokenizer.run P (renderL ci f none ds))) =
+        BS.WriterText.mergeData (BS.Writer.emitDoc iv
+          (BS.WriterText.withDerivedPos iv (BS.WriterMin.minimalChoices (toWDocL f ds)) (toWDocL f ds)) (toWDocL f ds)) ∧
+      (BS.Tokenizer.run P (renderL ci f none ds)).flag = .ok ∧ (BS.Tokenizer.run P (renderL ci f none ds)).st.s = [] := by
+  rw [render_is_written ci hci f hf iv ds h]
+  exact BS.Props.C04.callbacks_of_written_document P hP iv _ _ hw
+
+
+/-- **C04's `normalise` of the written document is this model's `normaliseL`**, for every forest (no hypothesis): as
+    trees of the builder model (`toDocL`: names, nesting, strings with their classes; attributes are reported by C04
+    separately as `startInfos`), with the builder configuration read off `PCfg` (`bcfgOf`) and any numbering of the
+    classes that agrees with the adapter's ids of the special ones. -/
+theorem normalise_is_c04_normalise (p : PCfg) (f : Fmt) (clsId : SCls → BS.Builder.Cls) (hid : ClsIdOK clsId) (ds : List Node) :
+    toDocL clsId (normaliseL p f ds) = BS.Writer.normalise (bcfgOf p clsId) (toWDocL f ds) :=
+  normalise_bridge p f clsId hid ds
+
+/-- **parse(render(t)) = the normal form of t, through the tokenizer model, in this model's vocabulary.** For every
+    `PCfg` whose root name is neither whitespace-preserving nor a string container, every adapter configuration with
+    `EntOK`, every `ParamsOK` parameters, the 'minimal' formatter and every `RenderWritable` forest: the tree built from
+    the tokenizer model's callbacks on the rendered text is `normaliseL p f ds` — the same normal form
+    `reparse_roundtrip` reaches from the assumed stream `emitR`, so `same_elements/_text/_specials`, `normalise_idem_iff`
+    … apply to it. (Attributes: C04's `startInfos` of the written attributes `evAttrs`, from which `normAttrs` is
+    computed by `Tag.__init__`'s multi-valued split — not restated here.) -/
+theorem reparse_roundtrip_tokenized_normalise (p : PCfg) (clsId : SCls → BS.Builder.Cls) (hid : ClsIdOK clsId)
+    (hroot : p.preserveWs.contains rootFrame.name = false ∧ lookupL p.containers rootFrame.name = none)
+    (acfg : BS.Adapter.ACfg) (P : BS.Tokenizer.Params) (hP : BS.WriterText.ParamsOK P) (he : BS.WriterMin.EntOK acfg)
+    (ci : SCls → ClsInfo) (hci : ∀ c, ci c = assumedMarkup c) (f : Fmt) (hf : IsMinimal f) (ds : List Node)
+    (h : RenderWritable (bcfgOf p clsId) acfg f ds) :
+    (BS.Adapter.adapterBuild (bcfgOf p clsId) acfg
+        (BS.Tokenizer.callbacks (BS.Tokenizer.run P (renderL ci f none ds)))).1 =
+      toDocL clsId (normaliseL p f ds) := by
+  have hc : BS.Builder.CfgOK (bcfgOf p clsId) := ⟨by simpa [bcfgOf] using hroot.1, by simp [bcfgOf, hroot.2]⟩
+  rw [reparse_roundtrip_tokenized (bcfgOf p clsId) acfg hc P hP he ci hci f hf ds h]
+  exact (normalise_is_c04_normalise p f clsId hid ds).symm
+
+/-- the live configuration and a class numbering satisfy the hypotheses -/
+def liveClsId : SCls → BS.Builder.Cls
+  | .navigable => 0 | .comment => 1 | .cdata => 2 | .pi => 3 | .declaration => 4 | .doctype => 5
+  | .stylesheet => 6 | .script => 7 | .template => 8 | .rubyText => 9 | .rubyParen => 10 | .xmlpi => 11 | .preformatted => 12
+example : ClsIdOK liveClsId ∧ livePCfg.preserveWs.contains rootFrame.name = false ∧
+    lookupL livePCfg.containers rootFrame.name = none := ⟨⟨rfl, rfl, rfl, rfl, rfl⟩, by decide, by decide⟩
+
+/-- non-vacuity on C04's sample configuration (`xB`, `xA`: `br` void, `pre` preserving) with the references added -/
+def tkA : BS.Adapter.ACfg :=
+  { BS.Props.C04.xA with entity := fun n => if n == [97, 109, 112] then some [38] else if n == [108, 116] then some [60]
+                                            else if n == [103, 116] then some [62] else none }
+def tkDemo : List Node :=
+  [.str .doctype (ofS "html"),
+   .tag (tg "p" [(ofS "id", .str (ofS "x&y")), (ofS "class", .list [ofS "a", ofS "b'\""]), (ofS "k", .none)])
+     [.str .navigable (ofS "a<b & c>"), .tag (tg "br" [] true) [], .str .comment (ofS "note"), .tag (tg "b") [],
+      .str .cdata (ofS "d"), .str .xmlpi (ofS "x y")],
+   .tag (tg "pre") [.str .navigable (ofS " \n ")]]
+
+theorem tkDemo_ok : RenderWritable BS.Props.C04.xB tkA minimalHtml tkDemo := by decide +kernel
+example : renderL liveClsInfo minimalHtml none tkDemo =
+    ofS "<!DOCTYPE html>\n<p class=\"a b'&quot;\" id=\"x&amp;y\" k>a&lt;b &amp; c&gt;<br/><!--note--><b></b><![CDATA[d]]><?x y?></p><pre> \n </pre>" := by
+  decide +kernel
+example : (BS.Adapter.adapterBuild BS.Props.C04.xB tkA
+    (BS.Tokenizer.callbacks (BS.Tokenizer.run BS.Props.C04.xP (renderL liveClsInfo minimalHtml none tkDemo)))).1 =
+    BS.Writer.normalise BS.Props.C04.xB (toWDocL minimalHtml tkDemo) :=
+  congrArg Prod.fst (reparse_roundtrip_tokenized _ tkA (by decide) _ BS.Props.C04.xP_ok ⟨rfl, rfl, rfl⟩ liveClsInfo
+    class_table_live minimalHtml minimal_is_minimal.1 tkDemo tkDemo_ok)
+/-- outside the class: a value the renderer single-quotes, a `<` in a value, `<x/>` for a non-void name, script -/
+example : renderWritableL tkA.isVoid minimalHtml [.tag (tg "p" [(ofS "t", .str (ofS "a\"b"))]) []] = false ∧
+    renderWritableL tkA.isVoid minimalHtml [.tag (tg "p" [(ofS "t", .str (ofS "a<b"))]) []] = false ∧
+    renderWritableL tkA.isVoid minimalHtml [.tag (tg "x" [] true) []] = false ∧
+    renderWritableL tkA.isVoid minimalHtml [.tag (tg "script") [.str .script (ofS "x")]] = false := by decide
 
 
 end BS.Props.C05
